@@ -195,7 +195,7 @@ class C12:
     prop = "C12"
     level = "fault_enumeration"
     design_ref = "DESIGN.md 3.8"
-    tiers = {"quick": {"runs": 24000, "budget_s": 50, "chunk": 100, "twice_every": 0, "shrink_s": 30},
+    tiers = {"quick": {"runs": 100000, "budget_s": 80, "chunk": 250, "twice_every": 0, "shrink_s": 30},
              "thorough": {"runs": 2000000, "budget_s": 840, "chunk": 400, "twice_every": 0, "shrink_s": 60}}
     rule = ("delivery: one evaluation = one payload (adversarial text with LF/CRLF/lone CR/blank lines/unterminated last line, 2-4 byte "
             "UTF-8 characters, occasionally other Unicode line boundaries; or a small table serialised as RFC-4180 CSV / dense ARFF / "
